@@ -24,9 +24,55 @@ pub fn info() -> PropInfo {
     }
 }
 
+/// shapes no fixture comes near: chains of nested disclosures 10..40 levels deep, and containers
+/// with 30..70 hidden members (capacity thresholds, recursion guards)
+fn extreme_tree() -> BoxedStrategy<sdjwt_model::tree::MNode> {
+    use sdjwt_model::tree::{Elem, MNode, Member};
+    let deep = (10usize..40, any::<u64>(), any::<bool>()).prop_map(|(depth, shape, hide_all)| {
+        let mut node = MNode::Obj(vec![
+            Member { name: "x".into(), hidden: true, node: MNode::Leaf(json!(1)) },
+            Member { name: "y".into(), hidden: true, node: MNode::Arr(vec![Elem { hidden: true, node: MNode::Leaf(json!("e")) }, Elem { hidden: false, node: MNode::Leaf(json!(2)) }]) },
+        ]);
+        let mut s = shape;
+        for level in 0..depth {
+            let hidden = hide_all || (s & 1 == 1);
+            s >>= 1;
+            node = if (s & 1 == 0) || level % 3 == 0 {
+                MNode::Obj(vec![Member { name: "n".into(), hidden, node }])
+            } else {
+                MNode::Arr(vec![Elem { hidden: false, node: MNode::Leaf(json!(level as u64)) }, Elem { hidden, node }])
+            };
+            s = s.rotate_right(1);
+        }
+        MNode::Obj(vec![
+            Member { name: "iss".into(), hidden: false, node: MNode::Leaf(json!("i")) },
+            Member { name: "exp".into(), hidden: false, node: MNode::Leaf(json!(4_000_000_000u64)) },
+            Member { name: "deep".into(), hidden: false, node },
+        ])
+    });
+    let wide = (30usize..70, any::<bool>()).prop_map(|(n, in_array)| {
+        let inner = if in_array {
+            MNode::Arr((0..n).map(|i| Elem { hidden: i % 5 != 4, node: MNode::Leaf(json!(i as u64)) }).collect())
+        } else {
+            MNode::Obj((0..n).map(|i| Member { name: format!("m{}", i), hidden: i % 5 != 4, node: MNode::Leaf(json!(i as u64)) }).collect())
+        };
+        MNode::Obj(vec![
+            Member { name: "iss".into(), hidden: false, node: MNode::Leaf(json!("i")) },
+            Member { name: "exp".into(), hidden: false, node: MNode::Leaf(json!(4_000_000_000u64)) },
+            Member { name: "wide".into(), hidden: n % 2 == 0, node: inner },
+            Member { name: "tail".into(), hidden: true, node: MNode::Leaf(json!("t")) },
+        ])
+    });
+    prop_oneof![deep, wide].boxed()
+}
+
 pub fn strategy() -> BoxedStrategy<Case> {
+    let tree = prop_oneof![
+        12 => claims_and_strategy(ClaimCfg::SHORT_F64, HONEST_PATHS).prop_map(|(claims, strat)| mark(&claims, &strat).unwrap()),
+        2 => extreme_tree(),
+    ];
     (
-        claims_and_strategy(ClaimCfg::SHORT_F64, HONEST_PATHS),
+        tree,
         choices_strategy(),
         0u32..4,
         prop_oneof![
@@ -39,8 +85,7 @@ pub fn strategy() -> BoxedStrategy<Case> {
         any::<bool>(),
         proptest::collection::vec(any::<u16>(), 0..6),
     )
-        .prop_map(|((claims, strat), ch, budget, sd_alg, fmt, alg, decoys, list_ops)| {
-            let tree = mark(&claims, &strat).unwrap();
+        .prop_map(|(tree, ch, budget, sd_alg, fmt, alg, decoys, list_ops)| {
             let mut c = Choices::new(&ch);
             let sd_alg_dev = matches!(&sd_alg, Some(Value::String(s)) if s != "sha-256");
             let packed = Packer::new(&mut c, 18, budget, decoys).pack_root(&tree, sd_alg);
@@ -90,5 +135,5 @@ pub fn strategy() -> BoxedStrategy<Case> {
 }
 
 pub fn plan(tier: Tier) -> Plan<Case> {
-    Plan { strategy: strategy(), check, shrink_iters: 2000, decode_bytes: Some(sdjwt_model::ops::decode_c08), cases: match tier { Tier::Quick => 48_000, Tier::Thorough => 2_000_000 } }
+    Plan { strategy: strategy(), check, shrink_iters: 2000, decode_bytes: Some(sdjwt_model::ops::decode_c08), cases: match tier { Tier::Quick => 96_000, Tier::Thorough => 3_000_000 } }
 }
